@@ -4,7 +4,7 @@ SPEC = {
     "level": "exploration",
     "units": [
         {"name": "probes", "pkg": O4, "kind": "rapid", "run": "^TestVerifC03Probes$",
-         "quick": {"checks": 250, "shards": 4, "timeout": 300},
+         "quick": {"checks": 500, "shards": 8, "timeout": 300},
          "thorough": {"checks": 3000, "shards": 16, "timeout": 3000}},
     ],
 }
